@@ -46,7 +46,7 @@ ITEMS = [
               "    def __init__(self, b): self.b = b\n"
               "    def serialize(self): return self.b\n"
               "def live(a):\n"
-              "    return MOD.DevInThread.serialize(None, _M(a['payload']))\n")},
+              "    return MOD.DevInThread.serialize(OBJ(MOD.DevInThread), _M(a['payload']))\n")},
     # DevOutThread.ingest: every test and every slice of the two loops, expression by expression
     _ing("ingest_more", {"test_enclosing": "msg_size", "up": 2}, "(2 <? length d)%nat"),
     _ing("ingest_is_marker", {"test_enclosing": "msg_size", "up": 1},
